@@ -59,7 +59,8 @@ inline std::vector<std::string> keyAlphabet() {
   return {"", "a", "ab", std::string("a\0", 2), std::string("a\0b", 3), "b"};
 }
 
-static const char* kDst[] = {"fresh", "populated", "overflowed", "member", "element"};
+static const char* kDst[] = {"fresh", "populated", "overflowed", "member", "element", "member-of-overflowed", "element-of-overflowed"};
+static const int NDST = 7;
 
 struct Outcome {
   DeserializationError::Code code;
@@ -88,16 +89,27 @@ inline Outcome runOne(const std::string& text, int dst, bool sized) {
         A.failAll = false;
         break;
       case 3:
+      case 5:
         doc["keep"] = std::string("kept");
         doc["x"] = std::string("old");
         doc["after"] = 7;
         break;
       case 4:
+      case 6:
         doc.add(1);
         doc.add(std::string("old"));
         doc.add(3);
         break;
     }
+    if (dst == 5 || dst == 6) {  // an earlier, unrelated failure left overflowed() set on the document (only clear() resets it)
+      A.failAll = true;
+      if (dst == 5) doc["x"].set(std::string("a copied string whose allocation is refused"));
+      else doc[1].set(std::string("a copied string whose allocation is refused"));
+      A.failAll = false;
+      if (!doc.overflowed()) o.extra += "harness: the destination document is not in the overflowed state; ";
+    }
+    if (dst == 5) dst = 3;
+    if (dst == 6) dst = 4;
     DeserializationError err;
     if (dst == 3) {
       err = sized ? deserializeJson(doc["x"], text.data(), text.size()) : deserializeJson(doc["x"], text.c_str());
@@ -188,8 +200,8 @@ inline void run(Ctx& C) {
     std::string freshSig;
     judge(C, text, wantFirst, wantLast, dups, 0, false, nullptr, &freshSig);
     judge(C, text, wantFirst, wantLast, dups, 0, true, nullptr, nullptr);
-    for (int dst = 1; dst < 5; dst++) judge(C, text, wantFirst, wantLast, dups, dst, (dst & 1) != 0, &freshSig, nullptr);
-    texts += 6;
+    for (int dst = 1; dst < NDST; dst++) judge(C, text, wantFirst, wantLast, dups, dst, (dst & 1) != 0, &freshSig, nullptr);
+    texts += 1 + NDST;
     // escape spellings
     if (hasString(tree)) {
       for (int sp = 1; sp <= 3; sp++) {
@@ -248,6 +260,6 @@ inline void run(Ctx& C) {
   C.bound("all trees with <= " + std::to_string(N) + " nodes over " + std::to_string(G.leavesTop.size()) + " leaves (" +
           std::to_string(G.leavesDeep.size()) + " at depth >= " + std::to_string(G.deepFrom) +
           ") and 6 keys with repetition; x 4 escape spellings x {no ws, space everywhere, CR LF TAB SP everywhere, "
-          "every single ws position x 4 ws characters} x 5 destination states x {const char*, ptr+size}");
+          "every single ws position x 4 ws characters} x 7 destination states (fresh, populated, overflowed, member, element, member / element of an overflowed document) x {const char*, ptr+size}");
 }
 }  // namespace ix_valid
